@@ -38,7 +38,9 @@ func (r *mreg) info() *core.RegionInfo {
 	var leader *metapb.Peer
 	byStore := map[int]*metapb.Peer{}
 	for _, st := range r.vot {
-		p := &metapb.Peer{Id: uint64(r.id*100 + st), StoreId: uint64(st)}
+		// voters of every kind count as voters/followers/leaders: half of them carry a joint-consensus role
+		role := []metapb.PeerRole{metapb.PeerRole_Voter, metapb.PeerRole_IncomingVoter, metapb.PeerRole_Voter, metapb.PeerRole_DemotingVoter}[(r.id*7+st*3+r.size)%4]
+		p := &metapb.Peer{Id: uint64(r.id*100 + st), StoreId: uint64(st), Role: role}
 		meta.Peers = append(meta.Peers, p)
 		byStore[st] = p
 		if st == r.ld {
